@@ -61,6 +61,7 @@ class Corpus:
         if types is None and extra_cases is None:
             cases += incomplete_word_cases(self.g, rep.seed, 12 if per_type < 100 else 80)
             cases += short_exhaustive_cases(self.g, self.classes, rep.seed, 3 if per_type < 100 else 4, 700 if per_type < 100 else 5000)
+            cases += choice_removal_cases(self.g, rep.seed, 6 if per_type < 100 else 40)
         self.cases = cases
         self.impl = impl.run_cases(cases)
         self.model = self.m.run_py(cases)
@@ -338,4 +339,42 @@ def short_exhaustive_cases(g, classes, seed, maxlen=3, cap=700):
         for ln in range(2, maxlen + 1):
             for w in itertools.product(alpha, repeat=ln):
                 cases.append({'type': t, 'ops': [['a', x] for x in w] + [['f', 0]]})
+    return cases
+
+
+def choice_removal_cases(g, seed, pairs_per_choice=10):
+    """for every choice of every template and pairs of its branches (a from one, b from another): add a; [add a;] remove the first a; [add a;] add b -
+    the alternative must be exactly as available as on a fresh element holding what is left"""
+    rng = random.Random(seed * 53 + 11)
+    cases = []
+
+    def first_leaf(t):
+        if t[0] == 'E':
+            return t[1]
+        kids = t[4] if t[0] == 'G' else t[3]
+        for k in kids:
+            x = first_leaf(k)
+            if x:
+                return x
+        return None
+
+    def walk(t, acc):
+        if t[0] == 'E':
+            return
+        kids = t[4] if t[0] == 'G' else t[3]
+        if t[0] == 'C' and len(kids) >= 2:
+            acc.append([first_leaf(k) for k in kids])
+        for k in kids:
+            walk(k, acc)
+    for typ in g['types']:
+        choices = []
+        walk(g['templates'][typ], choices)
+        for leaves in choices:
+            leaves = [x for x in leaves if x]
+            prs = [(a, b) for a in leaves for b in leaves if a != b]
+            rng.shuffle(prs)
+            for a, b in prs[:pairs_per_choice]:
+                for h in ([['a', a], ['a', a], ['r', 0], ['a', a], ['a', b]], [['a', a], ['r', 0], ['a', b]], [['a', a], ['a', a], ['r', 0], ['a', b]],
+                          [['a', a], ['a', b], ['r', 0], ['a', b]]):
+                    cases.append({'type': typ, 'ops': h + [['f', 0]]})
     return cases
